@@ -245,6 +245,8 @@ def main():
     tier = os.environ.get("VERIF_TIER", tier) if tier not in ("quick", "thorough") else tier
     seed = int(os.environ.get("VERIF_SEED", "1"))
     cfg = P.PROPS[pid]
+    if cfg.get("kind") == "conc":
+        return main_conc(pid, tier, replay, seed)
     t0 = time.time()
     rundir = os.path.join(BUILD, "run", pid)
     shutil.rmtree(rundir, ignore_errors=True)
@@ -453,6 +455,88 @@ def main():
     print("%s %s: %d cases, %d ops, %d/%d obligations, %d mismatching, %d failing, %.1fs" % (
         pid, tier, evaluations, ops, evidence["coverage"]["discharged"], obligations,
         len(mism_cases), len(fail_cases), wall))
+    return 1 if violations else 0
+
+
+def main_conc(pid, tier, replay, seed):
+    """C06 / C07: theorems over the facts regenerated from the source + race-detector stress run."""
+    cfg = P.PROPS[pid]
+    t0 = time.time()
+    os.makedirs(os.path.join(V, "replays"), exist_ok=True)
+    os.makedirs(os.path.join(V, "evidence"), exist_ok=True)
+    rundir = os.path.join(BUILD, "run", pid)
+    shutil.rmtree(rundir, ignore_errors=True)
+    os.makedirs(rundir)
+    violations, notes = [], []
+    with Lock():
+        ok, out = build_srcfacts()
+        if not ok:
+            print(out)
+            return 2
+        coq_ok, coq_out = build_coq()
+        obligations, discharged, axioms, plog, broken, thm_names = compile_props(pid)
+        h_ok, h_out, hexe = build_harness(race=True)
+    if not h_ok:
+        print("race harness does not build against /repo:\n" + h_out)
+        return 2
+    lint_out = lint()
+    if lint_out:
+        broken = (broken + "; " if broken else "") + "forbidden keyword in development: " + lint_out.splitlines()[0]
+    diag = re.findall(r"= (\[\(.*?\)\])\s*:\s*list \(string \* option sev\)", plog, re.S) + \
+        re.findall(r"= (\[\{\|.*?\|\}\])\s*:\s*list gfact", plog, re.S)
+    diag = [re.sub(r"\s+", " ", d) for d in diag if d.strip() != "[]"]
+    # ---- stress run under the race detector (searches the failing schedule when an obligation broke)
+    scen = cfg["scenario"]
+    secs = cfg[tier]["seconds"]
+    seeds = cfg[tier].get("seeds", 1)
+    if replay:
+        rp = json.load(open(replay))
+        seeds, secs = 1, rp.get("seconds", secs)
+        seed = rp.get("seed", seed)
+    served, race_found = 0, None
+    for k in range(seeds):
+        env = dict(GOENV, GORACE="halt_on_error=1 exitcode=66")
+        rc, out = sh([hexe, "-race", scen, "-seconds", str(secs), "-seed", str(seed * 100 + k)], env=env, timeout=secs * 10 + 600)
+        m = re.search(r"(?:served|iterations)=(\d+)", out)
+        served += int(m.group(1)) if m else 0
+        if rc != 0:
+            kind = "data race reported by the race detector" if rc == 66 or "DATA RACE" in out else \
+                ("inadmissible response" if rc == 3 else "runtime fault (exit %d)" % rc)
+            race_found = {"property": pid, "scenario": scen, "seed": seed * 100 + k, "seconds": secs, "what": kind,
+                          "broken_obligation": broken, "discipline_violations": diag, "output": out[-6000:]}
+            break
+    if race_found:
+        path = os.path.join(V, "replays", "%s-%d-schedule.json" % (pid, seed))
+        json.dump(race_found, open(path, "w"), indent=1)
+        violations.append((path, ""))
+    elif broken:
+        path = os.path.join(V, "replays", "%s-%d-unproved.json" % (pid, seed))
+        json.dump({"property": pid, "what": "no failing schedule found", "broken_obligation": broken,
+                   "discipline_violations": diag, "stress": {"scenario": scen, "seconds": secs, "seeds": seeds, "requests": served}},
+                  open(path, "w"), indent=1)
+        violations.append((path, " no-failing-input-found"))
+    gen_sha = hashlib.sha1(b"".join(open(f, "rb").read() for f in sorted(glob.glob(os.path.join(COQ, "Gen", "*.v"))))).hexdigest()[:12]
+    n_events = sum(open(f).read().count("SAcc") + open(f).read().count("SAcq") for f in glob.glob(os.path.join(COQ, "Gen", "LockFacts.v")))
+    evidence = {
+        "property_id": pid, "tier": tier, "seed": seed, "level": "proof",
+        "coverage": {
+            "obligations": obligations, "discharged": discharged if not broken else min(discharged, max(obligations - 1, 0)),
+            "checker_cmd": "tools/srcfacts /repo -> coq/Gen/*.v; coqc -Q coq Mux coq/Props/%s.v (Print Assumptions under every theorem)" % "/".join(cfg["props"]),
+            "trusted_base": P.trusted_base(pid, axioms), "theorems": thm_names,
+            "partial_theorems": cfg.get("partial", []),
+            "generated_facts_sha1": gen_sha, "generated_lock_events": n_events,
+            "evaluations": served, "distinct_nontrivial": served,
+            "rule": cfg["rule"], "traces_validated_against_impl": served,
+            "stress": {"scenario": scen, "seconds_per_seed": secs, "seeds": seeds, "race_detector": True},
+            "discipline_violations": diag, "exhaustive": False, "notes": notes,
+            "samples": [{"note": "stress scenario " + scen + ": every reader response checked for admissibility; see harness/race.go"}],
+        },
+        "assumptions": cfg.get("assumptions", []), "wall_s": round(time.time() - t0, 2), "violations": len(violations),
+    }
+    json.dump(evidence, open(os.path.join(V, "evidence", pid + ".json"), "w"), indent=1)
+    for path, tail in violations:
+        print("VIOLATION property=%s replay=%s%s" % (pid, path, tail))
+    print("%s %s: %d/%d obligations, %d requests under the race detector, %.1fs" % (pid, tier, evidence["coverage"]["discharged"], obligations, served, time.time() - t0))
     return 1 if violations else 0
 
 
